@@ -1429,7 +1429,7 @@ def run(ctx):
 
     vlib.standard_proof_step(ctx, ["Props/C01.vo"], ["Props/C01.v"], search)
 
-    ncorr = 640 if ctx.quick else 8000
+    ncorr = 640 if ctx.quick else 6000
     ctx.log("correspondence: %d kernel cases" % ncorr)
     phase(ctx, "correspondence", lambda: correspondence(ctx, D, rng, ncorr))
     ctx.log("dispatcher table validation")
@@ -1441,7 +1441,7 @@ def run(ctx):
         run_corpus(ctx, D)
         check_conversions(ctx, D, random.Random(ctx.seed * 31 + 5), 40 if ctx.quick else 400)
     phase(ctx, "witnesses", p3)
-    nor = 600 if ctx.quick else 9000
+    nor = 600 if ctx.quick else 6600
     ctx.log("oracle: %d operation draws" % nor)
     # several children so that a crash loses one slice only
     nsl = 4 if ctx.quick else 12
